@@ -170,6 +170,25 @@ var families = []family{
 		}
 		return b.String()
 	}, 48, true},
+	{"fragment-diamonds", func(n int) string {
+		// every Fi spreads F(i+1) twice: 2^n paths through n+1 fragments
+		var b strings.Builder
+		b.WriteString("{ ...F0 }")
+		for i := 0; i < n; i++ {
+			fmt.Fprintf(&b, " fragment F%d on Query { ...F%d ...F%d }", i, i+1, i+1)
+		}
+		fmt.Fprintf(&b, " fragment F%d on Query { a b }", n)
+		return b.String()
+	}, 128, true},
+	{"fragment-diamonds-nested", func(n int) string {
+		var b strings.Builder
+		b.WriteString("{ start { ...F0 } }")
+		for i := 0; i < n; i++ {
+			fmt.Fprintf(&b, " fragment F%d on Node { next { ...F%d } next { ...F%d } }", i, i+1, i+1)
+		}
+		fmt.Fprintf(&b, " fragment F%d on Node { id }", n)
+		return b.String()
+	}, 64, true},
 	{"same-fragment-n-sites", func(n int) string {
 		return "{ start { " + rep("...F ", n) + "next { " + rep("...F ", n) + "} } } fragment F on Node { id next { id } }"
 	}, 128, true},
@@ -238,7 +257,7 @@ const envC = 0.25
 
 type sample struct {
 	n, tokens int
-	steps     [3]uint64 // validate, plan, do
+	steps     [4]uint64 // validate, plan, do, plan cache (both modes)
 }
 
 // measured runs f while a monitor goroutine enforces the envelope online.
@@ -330,6 +349,18 @@ func run(c *core.Child) {
 				if valid != f.exec {
 					c.Violation("harness:family-validity", fmt.Sprintf("family document validity is %v, expected %v", valid, f.exec), detail)
 				}
+				// the plan cache's own walks (fingerprint, literal normalisation) are
+				// part of what it costs to get from a request to a plan
+				for _, norm := range []bool{false, true} {
+					pc := graphql.NewPlanCache(graphql.PlanCacheOptions{Normalize: norm})
+					name := "PlanCache.Get"
+					if norm {
+						name = "PlanCache.Get(normalize)"
+					}
+					st := measured(c, name, N*3, detail, func() { pc.Get(&fs.schema, text, "") })
+					s.steps[3] += st
+					c.Eval(1)
+				}
 				if f.exec {
 					var plan *graphql.Plan
 					s.steps[1] = measured(c, "PlanQuery", N, detail, func() {
@@ -383,16 +414,16 @@ func run(c *core.Child) {
 		// local growth exponents (per m)
 		for _, m := range ms {
 			ss := perM[m]
-			for k := 0; k < 2; k++ { // validate, plan
+			for _, k := range []int{0, 1, 3} { // validate, plan, plan cache
 				for i := 2; i < len(ss); i++ {
 					a, b := ss[i-1], ss[i]
 					if a.steps[k] == 0 || b.steps[k] == 0 || b.tokens <= a.tokens {
 						continue
 					}
 					e := math.Log(float64(b.steps[k])/float64(a.steps[k])) / math.Log(float64(b.tokens)/float64(a.tokens))
-					c.MaxExtra(fmt.Sprintf("max_local_exponent:%s:%s", []string{"validate", "plan"}[k], f.name), e)
+					c.MaxExtra(fmt.Sprintf("max_local_exponent:%s:%s", []string{"validate", "plan", "do", "plancache"}[k], f.name), e)
 					if e > 3.3 {
-						c.Violation("exponent:"+[]string{"ValidateDocument", "PlanQuery"}[k], fmt.Sprintf("family %s (m=%d): steps grow from %d to %d while tokens grow from %d to %d (n %d -> %d): local exponent %.2f > 3.3", f.name, m, a.steps[k], b.steps[k], a.tokens, b.tokens, a.n, b.n, e), nil)
+						c.Violation("exponent:"+[]string{"ValidateDocument", "PlanQuery", "Do", "PlanCache.Get"}[k], fmt.Sprintf("family %s (m=%d): steps grow from %d to %d while tokens grow from %d to %d (n %d -> %d): local exponent %.2f > 3.3", f.name, m, a.steps[k], b.steps[k], a.tokens, b.tokens, a.n, b.n, e), nil)
 					}
 				}
 			}
